@@ -1,4 +1,5 @@
 import CentrifugeVerif.Proofs.RecoveryCache
+import CentrifugeVerif.Proofs.RecoveryBuffered
 /-!
 # C03 — cache recovery delivers the newest visible publication
 
@@ -165,6 +166,59 @@ theorem cache_two_step (limit : Nat) (s1 s2 : RStream) (f : Filt) (req : Req) (d
   rw [h1]
   cases hr <;> rfl
 
+/-- **The populate-then-retry reply never delivers a stale publication.**  `s1` is the stream at the
+first read (nothing visible found, so the handler runs), `s2` the stream after the handler; the buffer
+holds exactly the handler's publications (placeholders for filtered ones): every non-placeholder
+buffered entry is a visible publication of `s2`'s log newer than `s1.top` (`hb1`), and every visible
+publication of `s2`'s log newer than `s1.top` was buffered (`hb2`).  Then, without delta, every
+delivered publication is a visible publication of the epoch and no newer visible one exists. -/
+theorem cache_retry_never_stale (limit : Nat) (s1 s2 : RStream) (hi2 : s2.Inv) (f : Filt) (hw : f.WF)
+    (req : Req) (populated : Bool) (buffered : List MPub)
+    (h1 : recoverCache limit s1 f = none)
+    (hb1 : ∀ b ∈ buffered, b.filtered = false →
+      ∃ p ∈ s2.log, p.offset = b.offset ∧ p.id = b.id ∧ f.pass p = true ∧ s1.top < p.offset)
+    (hb2 : ∀ p ∈ s2.log, s1.top < p.offset → f.pass p = true →
+      ∃ b ∈ buffered, b.filtered = false ∧ b.offset = p.offset) :
+    ∀ m ∈ (cacheSubscribe limit s1 s2 f req false (some (some populated)) buffered).pubs,
+      ∃ p ∈ s2.log, p.offset = m.offset ∧ p.id = m.id ∧ f.pass p = true ∧
+        ∀ q ∈ s2.log, f.pass q = true → q.offset ≤ p.offset := by
+  intro m hm
+  -- the reply is `finish` applied to the decisive round's (≤ 1) publication and the buffer
+  have hshape : ∃ r rp t e, (cacheSubscribe limit s1 s2 f req false (some (some populated)) buffered) =
+      finish true false r (rp.map toPlain) buffered t e req.offset true ∧
+      (rp = [] ∨ rp = (cacheDecide limit s2 f req.offset req.epoch).1) := by
+    unfold cacheSubscribe
+    rw [h1]
+    simp only
+    split
+    · exact ⟨_, _, _, _, rfl, Or.inr rfl⟩
+    · exact ⟨_, _, _, _, rfl, Or.inl rfl⟩
+  obtain ⟨r, rp, t, e, hs, hrp⟩ := hshape
+  rw [hs] at hm
+  obtain ⟨hnf, hmem, hmax⟩ := finish_cache_pubs r (rp.map toPlain) buffered t e req.offset true m hm
+  have hfrombuf : m ∈ buffered →
+      ∃ p ∈ s2.log, p.offset = m.offset ∧ p.id = m.id ∧ f.pass p = true ∧
+        ∀ q ∈ s2.log, f.pass q = true → q.offset ≤ p.offset := by
+    intro hmb
+    obtain ⟨p, hp, hpo, hpid, hpp, hgt⟩ := hb1 m hmb hnf
+    refine ⟨p, hp, hpo, hpid, hpp, ?_⟩
+    intro q hq hqp
+    by_cases hqt : s1.top < q.offset
+    · obtain ⟨b, hb, hbf, hbo⟩ := hb2 q hq hqt hqp
+      have := hmax b (List.mem_append_right _ hb) hbf
+      omega
+    · omega
+  rcases List.mem_append.mp hmem with hmr | hmb
+  · rcases hrp with hrp | hrp
+    · subst hrp; simp at hmr
+    · obtain ⟨p, hp, rfl⟩ := List.mem_map.mp hmr
+      rw [hrp] at hp
+      obtain ⟨hpi, hpp, _⟩ := (cache_at_most_one limit s2 hi2 f hw req.offset req.epoch).2 p hp
+      have hplog : p ∈ s2.log := by
+        have := hi2.suffix; rw [this] at hpi; exact List.mem_of_mem_drop hpi
+      exact ⟨p, hplog, rfl, rfl, hpp, cache_never_stale limit s2 hi2 f hw req.offset req.epoch p hp⟩
+  · exact hfrombuf hmb
+
 /-- whatever the handler does, nothing is delivered with `recovered = false` -/
 theorem cache_false_empty (limit : Nat) (s1 s2 : RStream) (f : Filt) (req : Req) (delta : Bool)
     (h : HandlerReply) (buffered : List MPub)
@@ -245,6 +299,14 @@ example : cacheSubscribe 0 exC exC fNone ⟨3, 7, false⟩ false none [] = .repl
 -- populate-then-retry: empty cache, handler publishes offset 4 (tag 1) which is also buffered
 example : cacheSubscribe 0 exC.clear (exC.clear.add 1 4 5) (fEq 1) ⟨0, 0, false⟩ false (some (some true))
     [⟨4, false, 4⟩] = .reply true [⟨4, false, 4⟩] 0 7 4 true := by decide
+
+-- the hypotheses of `cache_retry_never_stale` on that instance (handler published offset 4, tag 1)
+example : recoverCache 0 exC.clear (fEq 1) = none := by decide
+example : ∀ b ∈ [(⟨4, false, 4⟩ : MPub)], b.filtered = false →
+    ∃ p ∈ (exC.clear.add 1 4 5).log, p.offset = b.offset ∧ p.id = b.id ∧ (fEq 1).pass p = true ∧
+      exC.clear.top < p.offset := by decide
+example : ∀ p ∈ (exC.clear.add 1 4 5).log, exC.clear.top < p.offset → (fEq 1).pass p = true →
+    ∃ b ∈ [(⟨4, false, 4⟩ : MPub)], b.filtered = false ∧ b.offset = p.offset := by decide
 
 /-- **Literal reading fails.**  Filter `tag = 3` excludes every retained publication: the channel's
 newest publication (offset 3 = top) *is* present in history and the client is not at the current
